@@ -22,6 +22,7 @@ type Oblig struct {
 	Cond   *Term // the unguarded goal
 	Expect string // "unsat" (default) or "sat" (cover)
 	Note   string
+	Why    string // for generator-decided obligations: the structural reason it does not hold
 	Pos    string
 	// result
 	Status  string // proved, failed(sat), unknown, error
